@@ -37,10 +37,13 @@ Definition sat_sub (a b : N) : N := a - b.
 Record variant := mkVariant {
   v_push_counts : bool;   (* PrefixFileSet::push adds the file length to [len]          (D14a) *)
   v_byte_prefix : bool;   (* PrefixFileSet::new compares bytes, not whole path components (D14b) *)
-  v_sat_budget  : bool    (* the writer computes its deletion budget with saturating_sub (D14c) *)
+  v_sat_budget  : bool;   (* the writer computes its deletion budget with saturating_sub (D14c) *)
+  v_fix18       : bool    (* Ord for PrefixFile breaks mtime ties by path                 (D18)  *)
 }.
-Definition post_fix : variant := mkVariant true true true.
-Definition pre_fix  : variant := mkVariant false false false.
+Definition post (b18 : bool) : variant := mkVariant true true true b18.
+Definition post_fix : variant := post false.     (* D14 repaired, D18 not *)
+Definition fix18 : variant := post true.         (* D14 and D18 repaired *)
+Definition pre_fix  : variant := mkVariant false false false false.
 
 (* ------------------------------------------------------------------ files *)
 (* A file name inside the log directory: either arbitrary bytes, or the name LogFile::create
@@ -122,14 +125,33 @@ Fixpoint take_kth {A} (p : A -> bool) (k : nat) (l : list A) : option (A * list 
   end.
 Definition count_if {A} (p : A -> bool) (l : list A) : nat := length (filter p l).
 
-(* BinaryHeap::pop with tie choice k *)
-Definition pop (k : nat) (es : list pfile) : option (pfile * list pfile) :=
-  match min_mtime es with
-  | None => None
-  | Some m =>
-      let p := fun e => p_mtime e =? m in
-      take_kth p (Nat.modulo k (count_if p es)) es
+(* The order of the heap (reversed Ord of PrefixFile: the heap is a max-heap).
+   before D18: by mtime only.
+   after  D18: by mtime, then by path.  Paths inside one directory compare like their file names,
+   byte-wise; a generated name <prefix>.<stamp of sec>-<n> compares by the second (the stamp has
+   fixed width) and then by the DECIMAL TEXT of n ("-10" sorts before "-2").  The order between an
+   arbitrary name and a generated one would need the rendered stamp; the model puts arbitrary
+   names first (it matters only when such a pair has equal mtime). *)
+Fixpoint lex_leb (a b : list N) : bool :=
+  match a, b with
+  | [], _ => true
+  | _ :: _, [] => false
+  | x :: a', y :: b' => (x <? y) || ((x =? y) && lex_leb a' b')
   end.
+Definition name_key (nm : fname) : list N :=
+  match nm with NPre b => 0 :: b | NGen sec n => 1 :: sec :: dec n end.
+Definition mtime_leb (a b : pfile) : bool := p_mtime a <=? p_mtime b.
+Definition key_leb (a b : pfile) : bool :=
+  (p_mtime a <? p_mtime b) || ((p_mtime a =? p_mtime b) && lex_leb (name_key (p_name a)) (name_key (p_name b))).
+Definition heap_leb (v : variant) : pfile -> pfile -> bool := if v_fix18 v then key_leb else mtime_leb.
+Definition is_min (leb : pfile -> pfile -> bool) (es : list pfile) (e : pfile) : bool := forallb (leb e) es.
+
+(* BinaryHeap::pop: one of the elements that are minimal in the heap order leaves; [k] chooses
+   among several (before D18: all entries of minimal mtime; after D18: only entries with the
+   same mtime AND path) *)
+Definition pop (v : variant) (k : nat) (es : list pfile) : option (pfile * list pfile) :=
+  let p := is_min (heap_leb v) es in
+  take_kth p (Nat.modulo k (count_if p es)) es.
 
 Definition sys := (list file * pset)%type.
 
@@ -149,11 +171,11 @@ Definition set_new (v : variant) (m : mode) (prefix : bytes) (fs : list file) (t
   end.
 
 (* PrefixFileSet::delete_oldest: peek().unwrap(); remove_file(path)?; len -= file.len; pop() *)
-Definition delete_oldest (m : mode) (s : sys) : res sys :=
+Definition delete_oldest (v : variant) (m : mode) (s : sys) : res sys :=
   let '(fs, st) := s in
   let k := hd O (ties st) in
   let st0 := mkPset (entries st) (slen st) (tl (ties st)) in
-  match pop k (entries st) with
+  match pop v k (entries st) with
   | None => RPanic
   | Some (e, rest) =>
       match fs_remove (p_name e) fs with
@@ -168,31 +190,31 @@ Definition delete_oldest (m : mode) (s : sys) : res sys :=
 
 (* PrefixFileSet::delete_older_than(now, duration): while the oldest is older than now-duration.
    Every iteration pops one entry, so [length entries] iterations always suffice (fuel). *)
-Fixpoint older_loop (m : mode) (fuel : nat) (thr : N) (s : sys) : res sys :=
+Fixpoint older_loop (v : variant) (m : mode) (fuel : nat) (thr : N) (s : sys) : res sys :=
   match min_mtime (entries (snd s)) with
   | None => ROk s
   | Some mm =>
       if mm <? thr then
         match fuel with
         | O => ROk s
-        | S f => bind (delete_oldest m s) (older_loop m f thr) (fun x => x)
+        | S f => bind (delete_oldest v m s) (older_loop v m f thr) (fun x => x)
         end
       else ROk s
   end.
-Definition delete_older_than (m : mode) (now dur : N) (s : sys) : res sys :=
-  older_loop m (length (entries (snd s))) (now - dur) s.
+Definition delete_older_than (v : variant) (m : mode) (now dur : N) (s : sys) : res sys :=
+  older_loop v m (length (entries (snd s))) (now - dur) s.
 
 (* PrefixFileSet::delete_oldest_while_over_max_len(max_len): while self.len > max_len.
    With an empty heap and len > max_len the unwrap in delete_oldest panics. *)
-Fixpoint over_loop (m : mode) (fuel : nat) (max_len : N) (s : sys) : res sys :=
+Fixpoint over_loop (v : variant) (m : mode) (fuel : nat) (max_len : N) (s : sys) : res sys :=
   if max_len <? slen (snd s) then
     match fuel with
     | O => RPanic
-    | S f => bind (delete_oldest m s) (over_loop m f max_len) (fun x => x)
+    | S f => bind (delete_oldest v m s) (over_loop v m f max_len) (fun x => x)
     end
   else ROk s.
-Definition while_over (m : mode) (max_len : N) (s : sys) : res sys :=
-  over_loop m (S (length (entries (snd s)))) max_len s.
+Definition while_over (v : variant) (m : mode) (max_len : N) (s : sys) : res sys :=
+  over_loop v m (S (length (entries (snd s)))) max_len s.
 
 (* PrefixFileSet::push *)
 Definition push (v : variant) (m : mode) (e : pfile) (st : pset) : res pset :=
@@ -221,9 +243,9 @@ Definition set_step (v : variant) (m : mode) (prefix : bytes) (s : sys) (o : sop
   | ONew ts => bind (set_new v m prefix fs ts) (fun st' => ROk (fs, st')) (fun st' => (fs, st'))
   | OPush nm mtime len =>
       bind (push v m (mkPfile (NPre nm) mtime len) st) (fun st' => ROk (fs, st')) (fun st' => (fs, st'))
-  | ODelOldest => delete_oldest m s
-  | ODelOlder now dur => delete_older_than m now dur s
-  | OWhileOver mx => while_over m mx s
+  | ODelOldest => delete_oldest v m s
+  | ODelOlder now dur => delete_older_than v m now dur s
+  | OWhileOver mx => while_over v m mx s
   | OTies ts => ROk (fs, mkPset (entries st) (slen st) ts)
   end.
 
@@ -320,7 +342,7 @@ Definition start (v : variant) (m : mode) (cfg : config) (prefix : bytes) (fs : 
   | RPanic => RPanic
   | RErr st => RPanic
   | ROk st =>
-      match while_over m (max_keep_bytes cfg) (fs, st) with
+      match while_over v m (max_keep_bytes cfg) (fs, st) with
       | RPanic => RPanic
       | RErr (fs1, st1) => RErr (mkW fs1 st1 (NPre []) 0 0)
       | ROk (fs1, st1) =>
@@ -363,13 +385,13 @@ Definition budget (v : variant) (m : mode) (cfg : config) (flen n : N) : option 
 Definition phase_delete (v : variant) (m : mode) (cfg : config) (ev : line) (w : wstate) : res wstate :=
   let now := l_time ev in
   let r1 := match max_keep_age cfg with
-            | Some d => lift_set w (delete_older_than m now d (w_fs w, w_set w))
+            | Some d => lift_set w (delete_older_than v m now d (w_fs w, w_set w))
             | None => ROk w
             end in
   bind r1 (fun w1 =>
     match budget v m cfg (w_len w1) (l_size ev) with
     | None => RPanic
-    | Some b => lift_set w1 (while_over m b (w_fs w1, w_set w1))
+    | Some b => lift_set w1 (while_over v m b (w_fs w1, w_set w1))
     end) (fun x => x).
 
 Definition phase_append (m : mode) (ev : line) (w : wstate) : res wstate :=
@@ -478,10 +500,13 @@ Definition keep_entries (del : list fname) (es : list pfile) : list pfile :=
   filter (fun e => negb (in_names (p_name e) del)) es.
 Definition gone_entries (del : list fname) (es : list pfile) : list pfile :=
   filter (fun e => in_names (p_name e) del) es.
-Definition oldest_first (gone kept : list pfile) : bool :=
-  forallb (fun g => forallb (fun k => p_mtime g <=? p_mtime k) kept) gone.
+Definition strict_before (leb : pfile -> pfile -> bool) (g k : pfile) : bool := leb g k && negb (leb k g).
+(* everything deleted comes before everything kept: in mtime order (ties allowed) before D18,
+   strictly in (mtime, path) order after D18 -- the "contiguous most-recent suffix" clause *)
+Definition oldest_first (v : variant) (gone kept : list pfile) : bool :=
+  forallb (fun g => forallb (fun k => if v_fix18 v then strict_before key_leb g k else mtime_leb g k) kept) gone.
 Definition max_mtime (es : list pfile) : N := fold_right (fun e a => N.max (p_mtime e) a) 0 es.
-Definition oracle_set_step (es : list pfile) (o : sop) (del : list fname) : bool :=
+Definition oracle_set_step (v : variant) (es : list pfile) (o : sop) (del : list fname) : bool :=
   let kept := keep_entries del es in
   let gone := gone_entries del es in
   (length gone =? length del)%nat &&
@@ -489,13 +514,15 @@ Definition oracle_set_step (es : list pfile) (o : sop) (del : list fname) : bool
   | ODelOlder now dur =>
       forallb (fun e => p_mtime e <? now - dur) gone && forallb (fun e => negb (p_mtime e <? now - dur)) kept
   | OWhileOver mx =>
-      (sumN (map p_len kept) <=? mx) && oldest_first gone kept &&
+      (sumN (map p_len kept) <=? mx) && oldest_first v gone kept &&
       match gone with
       | [] => true
-      | _ => existsb (fun g => (p_mtime g =? max_mtime gone) && (mx <? sumN (map p_len kept) + p_len g)) gone
+      | _ => existsb (fun g => (if v_fix18 v then forallb (fun g' => key_leb g' g) gone
+                                else p_mtime g =? max_mtime gone)
+                               && (mx <? sumN (map p_len kept) + p_len g)) gone
       end
   | ODelOldest =>
-      match gone with [g] => oldest_first gone kept | _ => false end
+      match gone with [g] => oldest_first v gone kept | _ => false end
   | _ => match del with [] => true | _ => false end
   end.
 
@@ -510,3 +537,9 @@ Definition track_entries (v : variant) (prefix : bytes) (fs : list file) (es : l
   | OPush nm mt len => es ++ [mkPfile (NPre nm) mt len]
   | _ => keep_entries del es
   end.
+
+(* writer oracle, clause for the log files that existed before the first run: those that
+   disappeared come before those that are still there (same order clause as for the set) *)
+Definition ow_old_order (v : variant) (olds : list pfile) (alive : list fname) : bool :=
+  oldest_first v (filter (fun e => negb (in_names (p_name e) alive)) olds)
+                 (filter (fun e => in_names (p_name e) alive) olds).
